@@ -152,4 +152,27 @@ IFUnfuse(x, ax) ==
               vperm == [i \in 1..(Rank(x) + nn - 1) |-> IF i >= ax /\ i < ax + nn THEN ax + nn - 1 - (i - ax) ELSE i]
           IN IPhaseTranspose(IPhaseFlip(y, flips), vperm)
 
+---------------------------------------------------------------------------
+\* remaining FermionicArray overrides (fermionic_core.py:242-261, 724-816)
+IFBinary(x, y, f(_, _), policy) == IBinary(IPhaseSync(x), IPhaseSync(y), f, policy)
+\* squeeze / expand_dims go through _map_blocks, which re-keys the sign table
+IFSqueeze(x, S) == [ISqueeze(x, S) EXCEPT !.phases = [i \in 1..Len(x.phases) |-> [s |-> Without(x.phases[i].s, S), p |-> x.phases[i].p]]]
+IFExpand(x, p, c, dual) ==
+  [IExpand(x, p, c, dual) EXCEPT !.phases = [i \in 1..Len(x.phases) |-> [s |-> InsertAt1(x.phases[i].s, p, c), p |-> x.phases[i].p]]]
+IFMatmul(x, y) ==
+  LET y1 == IF y.ix[1].dual THEN IPhaseFlip(y, <<1>>) ELSE y
+      a == IPhaseSync(x)
+      b == IPhaseSync(y1)
+  IN IResolveOddpos(a, b, ITensordotBlockwise(a, b, <<Rank(x)>>, <<1>>))
+IFTrace(x) == IF x.ix[1].dual /\ ~x.ix[2].dual THEN ITrace(IPhaseSync(x)) ELSE ITrace(IPhaseSync(IPhaseFlip(x, <<1>>)))
+\* einsum: transpose so that traced pairs come first, grouped by letter as (bra, ket), then the abelian einsum
+IFEinsum(x, lhs, rhs) ==
+  LET rpos(c) == IF \E i \in 1..Len(rhs) : rhs[i] = c THEN (CHOOSE i \in 1..Len(rhs) : rhs[i] = c) - 1 ELSE -1
+      key(i) == <<rpos(lhs[i]), lhs[i], IF x.ix[i].dual THEN 0 ELSE 1>>
+      lt(i, j) == LET a == key(i)  b == key(j) IN
+                  a[1] < b[1] \/ (a[1] = b[1] /\ (a[2] < b[2] \/ (a[2] = b[2] /\ (a[3] < b[3] \/ (a[3] = b[3] /\ i < j)))))
+      perm == SetToSortSeq(1..Rank(x), lt)
+      y == IPhaseSync(IFTranspose(x, perm, TRUE))
+  IN IEinsum(y, [i \in 1..Len(perm) |-> lhs[perm[i]]], rhs)
+
 =============================================================================
